@@ -404,7 +404,9 @@ class RemoveDeadCodeTransformer(Transformer):
         if condition == 'False':
             return else_body
 
-        has_elseif = bool(o.has_elseif and else_body and isinstance(else_body[0], ir.Conditional))
+        # An ELSE IF needs exactly one block conditional as else body
+        has_elseif = bool(o.has_elseif and len(else_body) == 1 and
+                          isinstance(else_body[0], ir.Conditional) and not else_body[0].inline)
         return self._rebuild(o, tuple((condition,) + (body,) + (else_body,)), has_elseif=has_elseif)
 
     def visit_MultiConditional(self, o, **kwargs):
